@@ -48,7 +48,11 @@ Eligible(p) == Live(p) /\ IsNew(p)
 PlannedAt(plan, R, i) == IF i <= 0 THEN 0 ELSE PlannedOf(plan[i], R)
 Increment(plan, R, i) == PlannedAt(plan, R, i) - PlannedAt(plan, R, i - 1)
 
-\* number of pods that carry (current rollout-id, batch i) among the pods that can belong to a batch
+\* number of pods that carry (current rollout-id, batch i) among the pods that can belong to a batch.
+\* Terminating pods and pods of another revision that still carry the pair are stale in the sense of the
+\* property's last sentence ("never counted towards a batch they do not belong to"), so they are not
+\* counted here either (batchLabelSatisfied ignores terminating pods the same way): the replacement of
+\* a terminating labelled pod may receive the same batch label.
 Count(pods, lab, i) ==
   Cardinality({k \in DOMAIN pods : Eligible(pods[k]) /\ lab[k].rid = "cur" /\ lab[k].bid = ToString(i)})
 
